@@ -65,8 +65,8 @@ PlainBytes(s) == [i \in 1..Len(s) |-> Code[s[i]]]
 
 AcceptedPathSafeFn(s) == Verdict(s).v = "ok" => Safe(Verdict(s).path)
 VerbatimWhenPlainFn(s) == IsPlain(s) /\ Verdict(s).v = "ok" => Verdict(s).path = PlainBytes(s)
-\* no safe plain path is refused
-SafePlainAcceptedFn(s) == IsPlain(s) /\ Safe(PlainBytes(s)) => Verdict(s).v = "ok"
+\* (the converse - every safe path is accepted - is NOT demanded by C15 and is false: ".../x.fga" has no ".." segment
+\*  but contains "../"; the code refuses it, which is merely conservative)
 
 (***************************************************************************)
 (* Aut: the same check as a finite automaton over characters               *)
@@ -123,9 +123,17 @@ PathsNext == /\ Len(st) < MaxLen
              /\ \E c \in AlphaSet : st' = Append(st, c)
              /\ PrintT(ToJson(PathRec(st')))
              /\ PrintT(ToJson(PathRec(st' \o FgaChars)))
-PathInvs(s) == /\ AcceptedPathSafeFn(s) /\ VerbatimWhenPlainFn(s) /\ SafePlainAcceptedFn(s)
+PathInvs(s) == /\ AcceptedPathSafeFn(s) /\ VerbatimWhenPlainFn(s)
                /\ (CodeAccepts(RunAut(AutInitState, s, 1)) <=> Verdict(s).v = "ok")       \* automaton = functional reading
 PathsOK == PathInvs(st) /\ PathInvs(st \o FgaChars)
+
+\* Given: strings handed in from outside (seeded random longer strings), one initial state each
+GivenStrings == ndJsonDeserialize("modfile_given.ndjson")
+CharsOf(str) == [i \in 1..Len(str) |-> SubSeq(str, i, i)]
+GivenInit == /\ st \in 1..Len(GivenStrings)
+             /\ PrintT(ToJson(PathRec(CharsOf(GivenStrings[st].s))))
+GivenNext == FALSE /\ st' = st
+GivenOK == PathInvs(CharsOf(GivenStrings[st].s))
 
 (***************************************************************************)
 (* Manifest: presentation styles and positions                             *)
